@@ -905,8 +905,20 @@ def _rotation_kind(e: ast.AST, subject: str) -> Optional[str]:
         return None
     l, r = e.left, e.right
     ls, rs = _slice_of(l), _slice_of(r)
-    one_l = isinstance(l, ast.List) and len(l.elts) == 1
-    one_r = isinstance(r, ast.List) and len(r.elts) == 1
+    def single(x: ast.AST, idx: int) -> bool:
+        # [S[idx]] or [<a value that is not an element of S>]
+        if not (isinstance(x, ast.List) and len(x.elts) == 1):
+            return False
+        el = x.elts[0]
+        if isinstance(el, ast.Subscript) and unparse(el.value) == subject:
+            i = el.slice
+            if isinstance(i, ast.UnaryOp) and isinstance(i.op, ast.USub) \
+                    and isinstance(i.operand, ast.Constant):
+                return -i.operand.value == idx
+            return isinstance(i, ast.Constant) and i.value == idx
+        return True
+    one_l = single(l, -1)
+    one_r = single(r, 0)
     if rs == (subject, None, -1) and (one_l or ls == (subject, -1, None)):
         return "last-to-front"
     if ls == (subject, 1, None) and (one_r or rs == (subject, None, 1)):
